@@ -43,9 +43,11 @@ def main():
         version=1,
         setup_cmd="./setup.sh",
         hooks=dict(guard="LIBCPERCIVA_VERIF",
-                   enable="harness builds pass -DLIBCPERCIVA_VERIF; no file under /repo references the guard (all interposition is link-time: --wrap and replaced objects)",
+                   enable="harness builds (engine/buildlib.py) pass -DLIBCPERCIVA_VERIF. One hook: datastruct/mpool.h poisons objects cached in a pool "
+                          "when built with AddressSanitizer (use after mpool_*_free becomes a sanitizer report); everything else is link-time "
+                          "interposition (--wrap, replaced objects) and needs no source change",
                    baseline_off_cmd="cd /repo && make all && make test",
-                   source_commits=[], add_only=True),
+                   source_commits=["a3806b5"], add_only=True),
         engines=[dict(name="pbt", path="engine/pbt.h", serves_properties=[c["property_id"] for c in checks],
                       kind_free_text="rapidcheck case runner: generated Case values, fork isolation, shrinking to replay files, evidence counters"),
                  dict(name="buildlib", path="engine/buildlib.py", serves_properties=[c["property_id"] for c in checks],
